@@ -676,8 +676,13 @@ fn build(case: &Value) -> Result<(tempfile::TempDir, Index), String> {
 fn manifest_view(idx: &Index) -> (u64, Value) {
   let m = idx.manifest();
   // the generation cursors are bound to is the manifest revision (every effective commit and
-  // compaction bumps it)
-  let g = m.revision as u64;
+  // compaction bumps it).  Read through the manifest's own serde form so that the harness also
+  // builds against a tree without that field (then: the maximal segment generation, as before
+  // fc973e1 — the model still expects the revision and the correspondence breaks).
+  let g = serde_json::to_value(&m)
+    .ok()
+    .and_then(|v| v["revision"].as_u64())
+    .unwrap_or_else(|| m.segments.iter().map(|s| s.generation as u64).max().unwrap_or(0));
   let segs: Vec<Value> = m
     .segments
     .iter()
